@@ -452,14 +452,14 @@ func c13(r *engine.Run) {
 		"ECDSA nonces are random: only relations (verifies / unchanged / null) are compared, never signature bytes",
 		"observed at wallet.SignTransaction; Visor.WalletSignTransaction (service locking, unconfirmed-spend checks) is not part of this check")
 	r.Finish(engine.Coverage{
-		"evaluations":                     evals,
-		"distinct_nontrivial":             nontrivial,
-		"rule":                            "full product wallet kind × n × owners × pre-signature state × signIndexes (every tuple distinct by construction); non-trivial = the reference model refuses for a reason other than wallet kind (index, duplicate, already-signed, fully-signed, missing key), or it signs a strict subset / an explicitly indexed set",
-		"samples":                         samples,
-		"exhaustive":                      true,
-		"outcome_histogram":               outcomes.Map(),
-		"outcome_histogram_per_wallet":    perWallet.Map(),
-		"signatures_verified":             sigsVerified,
+		"evaluations":                      evals,
+		"distinct_nontrivial":              nontrivial,
+		"rule":                             "full product wallet kind × n × owners × pre-signature state × signIndexes (every tuple distinct by construction); non-trivial = the reference model refuses for a reason other than wallet kind (index, duplicate, already-signed, fully-signed, missing key), or it signs a strict subset / an explicitly indexed set",
+		"samples":                          samples,
+		"exhaustive":                       true,
+		"outcome_histogram":                outcomes.Map(),
+		"outcome_histogram_per_wallet":     perWallet.Map(),
+		"signatures_verified":              sigsVerified,
 		"signatures_verified_by_reference": sigsVerifiedModel,
 		"alphabet": map[string]interface{}{"wallet_kinds": len(wallets), "max_inputs": maxN, "owners_per_input": 3, "presign_states_per_input": 3,
 			"sign_index_lists": len(lists), "index_values": alpha},
